@@ -101,6 +101,12 @@ class Run:
         if self.keep:
             self.lines.append(s)
 
+    def note(self, s):
+        """kept in the trace but not hashed: text that legitimately differs between two executions of the
+        same tape (goroutine ids and addresses in a race report of the real binary)"""
+        if self.keep:
+            self.lines.append(s)
+
     def violate(self, prop, oracle, attrs, detail):
         self.log("VIOLATION %s %s %s: %s" % (prop, oracle, json.dumps(attrs, sort_keys=True), detail))
         if self.verdict == "infra":
